@@ -117,7 +117,9 @@ func runC16(c *ctx) {
 				func() {
 					defer func() { recover() }()
 					if key := s.ticketOf(b).Key(); s.mr.Exists(key) {
-						s.mr.SetTTL(key, 0)
+						rc := mustRedis(s)
+						rc.Persist(ctxBg(), key)
+						rc.Close()
 					}
 				}()
 			}
